@@ -356,24 +356,15 @@ def _iter_step(rule, f):
         rule.violation(name, where, '; '.join(problems))
 
 
-def _strings_rules(db, rep):
-    """r5 SUBSTR / r6 TRIM / r7 MERGE: ccl::Substr, ccl::TrimWhitespace and StrRange::Merge evaluated from their AST on every small input against
-    their definitions (code-point slicing with out-of-range -> empty; stripping the C whitespace set at both ends; smallest covering range)."""
+def substr_evaluated(db, r5, thorough):
+    """C20 r5 (shared with C17 r18): ccl::Substr interpreted on every text of up to three (thorough: four) code points of 1 to 4 bytes and every range"""
     import itertools
     from engine.evalmini import Interp, Obj, OutOfFragment, NOT_HANDLED
-    SPACES = (32, 9, 10, 11, 12, 13)
 
     def hook(it, fn, n, env):
-        cs = n.get('cs') or ''
-        if cs in ('std::isspace', 'isspace') and n.get('args'):
-            v = it.eval(fn, fn.stmts[n['args'][0]], env)
-            return 1 if v in SPACES else 0
-        if cs == '__assert_fail':
-            return None          # release semantics (NDEBUG): the shipped library is built without assertions
+        if (n.get('cs') or '') == '__assert_fail':
+            return None          # release semantics (NDEBUG)
         return NOT_HANDLED
-    thorough = rep.tier == 'thorough'
-    # ---- Substr
-    r5 = rep.rule('r5', 'SUBSTR: Substr(text, [s,f)) is the text of the code points s..f-1, and empty when the range is empty, inverted or not inside the text', 1)
     f = db.fn('ccl::Substr', required=False)
     if f is None:
         r5.broken('anchor vanished: ccl::Substr')
@@ -404,6 +395,27 @@ def _strings_rules(db, rep):
             r5.violation('Substr', '%s:%d' % (f.file, f.line), bad)
         else:
             r5.ok('Substr', 'agrees with code-point slicing on %d (text, range) cases over 1- to 4-byte code points' % cases, '%s:%d' % (f.file, f.line))
+
+
+def _strings_rules(db, rep):
+    """r5 SUBSTR / r6 TRIM / r7 MERGE: ccl::Substr, ccl::TrimWhitespace and StrRange::Merge evaluated from their AST on every small input against
+    their definitions (code-point slicing with out-of-range -> empty; stripping the C whitespace set at both ends; smallest covering range)."""
+    import itertools
+    from engine.evalmini import Interp, Obj, OutOfFragment, NOT_HANDLED
+    SPACES = (32, 9, 10, 11, 12, 13)
+
+    def hook(it, fn, n, env):
+        cs = n.get('cs') or ''
+        if cs in ('std::isspace', 'isspace') and n.get('args'):
+            v = it.eval(fn, fn.stmts[n['args'][0]], env)
+            return 1 if v in SPACES else 0
+        if cs == '__assert_fail':
+            return None          # release semantics (NDEBUG): the shipped library is built without assertions
+        return NOT_HANDLED
+    thorough = rep.tier == 'thorough'
+    # ---- Substr
+    r5 = rep.rule('r5', 'SUBSTR: Substr(text, [s,f)) is the text of the code points s..f-1, and empty when the range is empty, inverted or not inside the text', 1)
+    substr_evaluated(db, r5, thorough)
     # ---- TrimWhitespace
     r6 = rep.rule('r6', 'TRIM: TrimWhitespace removes exactly the leading and trailing run of C whitespace (space, \\t, \\n, \\v, \\f, \\r), also for all-whitespace and one-character strings', 1)
     g = db.fn('ccl::TrimWhitespace', required=False)
